@@ -30,11 +30,15 @@ Silent == /\ l <= Len(Trace) /\ UNCHANGED l /\ (Validate \/ ReadDir \/ ReadIndex
 
 TRead == /\ IsEvent("Op") /\ Trace[l].op \in {"ReadDir", "ReadFile"} /\ UNCHANGED vars
 
+\* every write operation is logged with whether the TSM made it fail; a failing one is the call's fault, reached
 TWrite == /\ IsEvent("Op")
-          /\ \/ Trace[l].op = "MkdirTemp" /\ MkdirTemp /\ Trace[l].entry = target'
+          /\ \/ /\ Trace[l].op = "MkdirTemp" /\ MkdirTemp
+                /\ Trace[l].failed = (req.fault = "mkdir") /\ (~Trace[l].failed => Trace[l].entry = target')
              \/ /\ Trace[l].op = "WriteFile" /\ Trace[l].attr = "index" /\ WriteIndex
+                /\ Trace[l].failed = (req.fault = "index")
                 /\ Trace[l].entry = target /\ Trace[l].val = req.index
              \/ /\ Trace[l].op = "WriteFile" /\ Trace[l].attr = "digest" /\ WriteDigest
+                /\ Trace[l].failed = (req.fault = "digest")
                 /\ Trace[l].entry = target /\ Trace[l].digestOk
 
 TReturn == /\ IsEvent("Return") /\ pc = "idle" /\ req.kind # "idle"
